@@ -96,7 +96,7 @@ type sparser struct {
 	p    int
 }
 
-var ops3 = []string{"<==>", "==>", "&&", "||", "==", "!=", "<=", ">=", "<<", ">>", "&^", "::"}
+var ops3 = []string{"<==>", "===", "==>", "&&", "||", "==", "!=", "<=", ">=", "<<", ">>", "&^", "::"}
 
 func tokenize(src string) ([]tok, error) {
 	var out []tok
@@ -341,6 +341,10 @@ func (p *sparser) cmp() SExpr {
 			return x
 		}
 		switch t.s {
+		case "===":
+			p.p++
+			y := p.add()
+			x = &SBinary{"===", x, y}
 		case "==", "!=":
 			p.p++
 			if c, ok := x.(*SCall); ok && c.Fun == "dyn" && c.Recv == nil {
@@ -405,7 +409,7 @@ func (p *sparser) mul() SExpr {
 
 func (p *sparser) unary() SExpr {
 	t := p.cur()
-	if t.kind == "op" && (t.s == "!" || t.s == "-" || t.s == "^") {
+	if t.kind == "op" && (t.s == "!" || t.s == "-" || t.s == "^" || t.s == "*") {
 		p.p++
 		x := p.unary()
 		return &SUnary{t.s, x}
